@@ -787,9 +787,93 @@ def tuple_field_of_loop(fa, S, op, call_block):
     return None
 
 
+def quoter(ctx):
+    """QUOTER (C14): utils::quote_csv_cell is the only place where a surface becomes a CSV cell.
+    Every byte it writes comes out of the csv-core writer's output buffer (never straight from
+    the input), and every successful return has passed Writer::finish (closing quote). A
+    shortcut that copies `data` verbatim leaves `"` unescaped, and the emitted lex.csv no longer
+    reads back."""
+    crate = ctx.facts("A").lib
+    E = Effects(crate)
+    p = "vibrato::utils::quote_csv_cell"
+    f = crate.fns.get(p)
+    if f is None or not f.body:
+        raise EngineError("QUOTER: anchor lost: %s" % p)
+    fa = E.fa(p)
+    from flow import result_exits
+    # the output buffers handed (by &mut) to Writer::field / Writer::finish
+    bufs = set()
+    fin = []
+    for b, t in fa.calls():
+        ps = [strip_generics(x) for x in callee_paths(t)]
+        if any(x.endswith("csv_core::Writer::field") or x.endswith("Writer::field") for x in ps):
+            bufs.add(buffer_var(fa, t["args"][2]))
+        if any(x.endswith("Writer::finish") for x in ps):
+            bufs.add(buffer_var(fa, t["args"][1]))
+            fin.append(b)
+    bufs.discard(None)
+    if not bufs:
+        raise EngineError("QUOTER: csv_core::Writer::field/finish not found in quote_csv_cell")
+    nw = 0
+    bad = []
+    for b, t in fa.calls():
+        ps = [strip_generics(x) for x in callee_paths(t)]
+        if any(x.endswith("Write::write_all") or x.endswith("Write::write") or
+               x.endswith("Write::write_fmt") for x in ps):
+            nw += 1
+            src = buffer_var(fa, t["args"][1])
+            if src not in bufs:
+                names = fa.fn.local_names()
+                bad.append("%s writes from `%s`" % (fa.loc(b), names.get(src, "arg%s" % src if src else "?")))
+    ctx.floor("QUOTER", "writes in quote_csv_cell", nw, 2)
+    ctx.ob("QUOTER", "%s|all-output-through-csv-writer" % p, not bad, "%s:%s" % (f.file, f.line),
+           "every write of quote_csv_cell takes its bytes from the csv-core writer's output buffer"
+           if not bad else
+           "quote_csv_cell copies bytes that did not pass through the CSV writer (%s): quotes in "
+           "a surface stay unescaped and the following columns are swallowed when the file is "
+           "read back" % "; ".join(bad))
+    ok_b, err_b, _ = result_exits(fa)
+    okf = bool(fin) and all(any(fa.dominates(fb, o) for fb in fin) for o in ok_b)
+    ctx.ob("QUOTER", "%s|finish-before-ok" % p, okf, "%s:%s" % (f.file, f.line),
+           "every successful return of quote_csv_cell has called Writer::finish" if okf else
+           "quote_csv_cell can return Ok without Writer::finish (a quoted cell is left open)")
+
+
+def buffer_var(fa, op):
+    """The local array/vector (or parameter) a slice operand is cut from."""
+    pl = op_place(op)
+    for _ in range(16):
+        if pl is None:
+            return None
+        if 1 <= pl["l"] <= fa.arg_count:
+            return pl["l"]
+        ds = fa.defs().get(pl["l"], [])
+        if len(ds) != 1:
+            return pl["l"]
+        d = ds[0]
+        if d[2] == "call":
+            nm = (callee_of(d[3]) or {}).get("name")
+            if nm in ("index", "index_mut", "deref", "deref_mut", "as_slice", "as_mut_slice",
+                      "as_ref", "as_mut", "borrow", "borrow_mut") and d[3]["args"]:
+                pl = op_place(d[3]["args"][0])
+                continue
+            return pl["l"]
+        rv = d[3]
+        if rv["k"] == "use":
+            pl = op_place(rv["op"])
+        elif rv["k"] == "ref":
+            pl = rv["place"]
+        elif rv["k"] == "cast":
+            pl = op_place(rv["op"])
+        else:
+            return pl["l"]
+    return pl["l"] if pl else None
+
+
 def run_c14(ctx):
     lexicon_rows(ctx)
     matrix_rows(ctx)
+    quoter(ctx)
 
 
 def run_c16(ctx):
